@@ -209,6 +209,13 @@ func c07(run *ev.Run, tier string) {
 
 	// cross-process through the nfpm binary
 	if bin != "" {
+		// what is at the target after a rebuild does not depend on what was there
+		cliRebuildSmaller(run, bin, "C07", func(f, how string, atTarget, fresh []byte) {
+			atomic.AddInt64(&cliRuns, 3)
+			if !bytes.Equal(atTarget, fresh) {
+				run.Violate("C07/"+f+"/bytes-differ/target-held-an-older-larger-package", map[string]any{"how": how, "len": len(atTarget), "len_fresh_target": len(fresh), "first_difference_at": firstDiffAt(fresh, atTarget)})
+			}
+		})
 		type variant struct {
 			name     string
 			tz       string
